@@ -1,0 +1,46 @@
+//go:build verif
+
+package proxy
+
+import (
+	"github.com/go-logr/logr"
+	"go.minekube.com/brigodier"
+
+	"go.minekube.com/gate/pkg/command"
+	"go.minekube.com/gate/pkg/edition/java/netmc"
+	"go.minekube.com/gate/pkg/edition/java/profile"
+	"go.minekube.com/gate/pkg/edition/java/proto/packet"
+	"go.minekube.com/gate/pkg/util/permission"
+	"go.minekube.com/gate/pkg/util/uuid"
+)
+
+// Verification hooks for property C23 (merged command tree only shows usable proxy commands).
+// Add-only, no logic: thin forwarding functions over a bare connectedPlayer of the given Proxy.
+
+func c23Player(p *Proxy, client netmc.MinecraftConn, perm permission.Func) *connectedPlayer {
+	return &connectedPlayer{
+		MinecraftConn:      client,
+		sessionHandlerDeps: &sessionHandlerDeps{proxy: p},
+		log:                logr.Discard(),
+		profile:            &profile.GameProfile{ID: uuid.UUID{0xC2, 0x3}, Name: "c23"},
+		permFunc:           perm,
+	}
+}
+
+// C23Source returns a bare player (command source) with the given permission function.
+func C23Source(p *Proxy, client netmc.MinecraftConn, perm permission.Func) command.Source {
+	return c23Player(p, client, perm)
+}
+
+// C23FilterNode forwards to filterNode.
+func C23FilterNode(src brigodier.CommandNode, cmdSrc command.Source) brigodier.CommandNode {
+	return filterNode(src, cmdSrc)
+}
+
+// C23HandleAvailableCommands forwards to backendPlaySessionHandler.handleAvailableCommands for a bare player
+// of proxy p over client.
+func C23HandleAvailableCommands(p *Proxy, client netmc.MinecraftConn, perm permission.Func, pkt *packet.AvailableCommands) {
+	pl := c23Player(p, client, perm)
+	sc := &serverConnection{player: pl, log: logr.Discard()}
+	(&backendPlaySessionHandler{serverConn: sc, log: logr.Discard()}).handleAvailableCommands(pkt)
+}
